@@ -66,6 +66,10 @@ func weatherProjects(c *core.Ctx, n int) []*gen.Project {
 			first = gen.DayNum(p.Cfg.StartYear, 1, 1) // exactly the start year
 		}
 		last := gen.DayNum(endYear, 12, 31)
+		endsLater := i%4 == 3 && layout != 0 && i%6 != 4
+		if endsLater {
+			last = gen.DayNum(endYear+1, 12, 31) // the file goes on after the last simulated year
+		}
 		w.First = first
 		w.Days = gen.SynthWeather(r, first, last, float64(p.Cfg.TAnnual10)/10, false, i%4 == 1, false, false)
 		// low wind, sentinels in optional columns
@@ -125,6 +129,28 @@ func weatherProjects(c *core.Ctx, n int) []*gen.Project {
 				}
 			}
 		}
+		// the days next to the loaded period (finding H22): the first day of the start year when the file starts earlier,
+		// the last day of the end year when the file goes on
+		if layout != 0 && first < gen.DayNum(p.Cfg.StartYear, 1, 1) {
+			k := gen.DayNum(p.Cfg.StartYear, 1, 1) - first
+			if layout == 1 && i%2 == 1 {
+				sentinel(k, 0)
+			}
+			if w.HasSun {
+				sentinel(k, 1)
+			} else if layout == 1 {
+				sentinel(k, 0)
+			}
+		}
+		if endsLater {
+			k := gen.DayNum(endYear, 12, 31) - first
+			if layout == 1 {
+				sentinel(k, 0)
+			}
+			if w.HasSun {
+				sentinel(k, 1)
+			}
+		}
 		if i%3 == 2 {
 			p.Cfg.PreCorr = 1
 			w.Preco = make([]int, 12)
@@ -132,7 +158,7 @@ func weatherProjects(c *core.Ctx, n int) []*gen.Project {
 				w.Preco[m] = 100 + r.Intn(30)
 			}
 		}
-		arms := fmt.Sprintf("layout=%d years=%d preco=%d hasSun=%v fileStartsEarlier=%v", layout, o.Years, p.Cfg.PreCorr, w.HasSun, firstYear < p.Cfg.StartYear)
+		arms := fmt.Sprintf("layout=%d years=%d preco=%d hasSun=%v fileStartsEarlier=%v fileEndsLater=%v", layout, o.Years, p.Cfg.PreCorr, w.HasSun, firstYear < p.Cfg.StartYear, endsLater)
 		// negative inputs: the series does not cover the simulated period
 		switch {
 		case i%6 == 4: // series ends early
